@@ -257,6 +257,14 @@ pub fn run(ctx: &Ctx) -> Outcome {
                     rep.count("deviation_schedules", 2 * cuts_sets.len() as u64);
                     // (2c) very long single calls, also preceded / followed by a single block
                     for &n in &very_long {
+                        // the long call in every kind the front-end offers (a provided method per kind may carry its own override)
+                        for &k in fe.kinds.iter().filter(|k| **k != Kind::InPlace) {
+                            let pieces = vec![P { len: n * g, kind: k, single: false, closure: 0 }];
+                            rep.case(|| {
+                                let got = (fe.run)(key, &iv, &data[..n * g], &pieces, &pre)?;
+                                check_against(&fe, &got, &want, &pieces, &format!("n={n} (very long call);"))
+                            });
+                        }
                         for pieces in [vec![P { len: n * g, kind: Kind::InPlace, single: false, closure: 0 }], vec![P { len: g, kind: Kind::InPlace, single: true, closure: 0 }, P { len: (n - 1) * g, kind: Kind::B2b, single: false, closure: 0 }], vec![P { len: (n - 1) * g, kind: Kind::InPlace, single: false, closure: 0 }, P { len: g, kind: Kind::B2b, single: true, closure: 0 }]] {
                             rep.case(|| {
                                 let got = (fe.run)(key, &iv, &data[..n * g], &pieces, &pre)?;
